@@ -160,7 +160,7 @@ class State:
         if kind == "assert" and what.startswith("Overflow("):
             a = o.of_operand(t["msg_ops"][0])
             c = o.of_operand(t["msg_ops"][1])
-            for rule in (self.p_counter_step, self.p_bounded_counter_step, self.p_sub_guard):
+            for rule in (self.p_counter_step, self.p_bounded_counter_step, self.p_sub_guard, self.p_counted_field):
                 r = rule(b, blk, what, a, c, t)
                 if r:
                     return True, r
@@ -392,6 +392,81 @@ class State:
             if not on_cycle:
                 return "P-iteration-counter: a usize counter incremented at most once per item of an in-memory iterator cannot overflow"
         return None
+
+    def is_iteration_counter(self, b, loc):
+        """loc is a usize written only by `0` and by `loc + 1` steps that occur at most once per item of an in-memory iterator."""
+        for _ in range(4):
+            ws = b.assigns_to(loc)
+            if len(ws) == 1 and ws[0][1] != "term" and ws[0][2]["k"] == "use" and ws[0][2]["op"].get("k") in ("copy", "move") and not ws[0][2]["op"]["p"]:
+                loc = ws[0][2]["op"]["l"]
+            else:
+                break
+        if b.local_ty(loc) != "usize":
+            return False
+        incs = []
+        for wb, wi, rv in b.assigns_to(loc):
+            if wi == "term":
+                return False
+            if rv["k"] == "use" and rv["op"].get("k") == "const" and rv["op"].get("int") == 0:
+                continue
+            if rv["k"] == "use" and rv["op"].get("k") in ("copy", "move") and rv["op"]["p"] and isinstance(rv["op"]["p"][0], dict) and rv["op"]["p"][0].get("f") == 0:
+                tw = [x for x in b.assigns_to(rv["op"]["l"]) if x[1] != "term"]
+                if len(tw) == 1 and tw[0][2]["k"] == "binop" and tw[0][2]["op"] == "AddWithOverflow" and \
+                        self.is_copy_of(b, tw[0][2]["a"], loc) and tw[0][2]["b"].get("int") == 1:
+                    incs.append(tw[0][0])
+                    continue
+            return False
+        cycles = cfg_cycles(b)
+        for blk in incs:
+            inside = False
+            for cyc in cycles:
+                cs = set(cyc)
+                if blk not in cs:
+                    continue
+                inside = True
+                nexts = [x for x in cyc if b.blocks[x]["term"]["k"] == "call" and b.blocks[x]["term"]["callee"] == "std::iter::Iterator::next"]
+                if not nexts:
+                    return False
+                sub = {x: [y for y in b.succs()[x] if y in cs and y not in nexts] for x in cs if x not in nexts}
+                comps = sccs(sorted(sub), lambda v: sub.get(v, []))
+                if any(blk in comp and (len(comp) > 1 or blk in sub.get(blk, [])) for comp in comps):
+                    return False
+            if not inside:
+                continue  # a straight-line increment adds at most 1
+        return True
+
+    def p_counted_field(self, b, blk, what, a, c, t):
+        """s.f + 1 where the field f of a crate-local struct is, at every construction site, an iteration counter."""
+        if what != "Overflow(Add)" or t["msg_ops"][1].get("int") != 1:
+            return None
+        if not a or not all(x[0] == "field" and x[1][0] == "param" for x in a):
+            return None
+        fld = {x[2] for x in a}
+        prm = {x[1][1] for x in a}
+        if len(fld) != 1 or len(prm) != 1:
+            return None
+        fld = next(iter(fld))
+        adt = re.sub(r"^&+(mut )?", "", b.local_ty(next(iter(prm))) or "")
+        adt = re.sub(r"<.*$", "", adt)
+        if adt not in self.lib.adts:
+            return None
+        sites = 0
+        for ob in self.lib.fn_bodies():
+            if ob.j.get("auto_derived"):
+                continue
+            for bb, i, st in ob.stmts():
+                if st["k"] == "assign" and st["rv"]["k"] == "agg" and st["rv"].get("adt") == adt:
+                    fn = st["rv"].get("fnames", [])
+                    if fld not in fn:
+                        return None
+                    op = st["rv"]["ops"][fn.index(fld)]
+                    if op.get("k") not in ("copy", "move") or op["p"] or not self.is_iteration_counter(ob, op["l"]):
+                        return None
+                    sites += 1
+        if sites == 0:
+            return None
+        return (f"P-counted-field: {adt}.{fld} is built at {sites} site(s), each time from a counter stepped at most once per item of an "
+                "in-memory iterator, so it is far below usize::MAX (values constructed by hand through the public fields are outside the CLI's reach)")
 
     def same_len_base(self, x, base_terms):
         return x[0] == "call" and x[1].endswith("::len") and set(x[2][0]) == set(base_terms)
@@ -701,7 +776,7 @@ class State:
     # =====================================================================================
     # (2) loops
     # =====================================================================================
-    def loops(self):
+    def loops(self, floor=24):
         ctx = self.ctx
         lib = self.lib
         consumes = self.consume_summary()
@@ -719,7 +794,7 @@ class State:
                 except Exception as e:  # noqa: BLE001
                     ok, why = False, f"progress could not be established ({type(e).__name__}: {e})"
                 ctx.check(ok, "loop-progress", key, f"loop in {d} ({len(cyc)} blocks): {why}", b.span)
-        ctx.floor("loop-progress", n, 24, "CFG cycles in reachable code")
+        ctx.floor("loop-progress", n, floor, "CFG cycles in reachable code")
         self.eof_terminates(consumes)
 
     def consume_summary(self):
